@@ -157,7 +157,19 @@ def main():
             ctx.emit({"kind": "done"})
             return
         budget = getattr(mod, "CASE_BUDGET_S", None)
-        for case in job["cases"]:
+        # long shards compile thousands of XLA programs; the CPU JIT's code sections are only released with the
+        # executables ("LLVM ERROR: Unable to allocate section memory" after ~40 thorough cases of C04), so checks
+        # that build a new program per case ask for the compilation caches to be dropped every few cases
+        clear_every = (getattr(mod, "CLEAR_CACHES_EVERY", None) or {}).get(job["tier"], 0)
+        for ci, case in enumerate(job["cases"]):
+            if clear_every and ci and ci % clear_every == 0:
+                import gc
+
+                import jax
+
+                jax.clear_caches()
+                gc.collect()
+                ctx.count("compilation_caches_cleared")
             ctx.case = case
             t0 = time.time()
             try:
